@@ -76,6 +76,32 @@ def _nt_c07(case, obs):
     return any(t.split(':')[1] in ('1', '2') and t.endswith(':1') for t in _sections(obs).get('ORDER', []))
 
 
+def _pair_compare(case, obs, model):
+    a = obs.split(' ## ')
+    b = model.split(' ## ')
+    return len(a) == len(b) and all(_chain_compare(case, x, y) for x, y in zip(a, b))
+
+
+def _nt_pair(case, obs):
+    return obs.startswith('BIND ok')
+
+
+def _nt_c03(case, obs):
+    if not obs.startswith('BIND ok'):
+        return False
+    return any(t.endswith(':0') and int(t.split(':')[0]) < 90 for t in _sections(obs).get('ORDER', []))
+
+
+def _nt_c15(case, obs):
+    if not obs.startswith('BIND ok'):
+        return False
+    return any(':u' in t for t in _sections(obs).get('RMAP', []))
+
+
+def pair_stream(name, nq, nt):
+    return dict(name=name, n_quick=nq, n_thorough=nt, nontrivial=_nt_pair, compare=_pair_compare, wf_check=False)
+
+
 def chain_stream(nq, nt, nontrivial, name='chain'):
     return dict(name=name, n_quick=nq, n_thorough=nt, nontrivial=nontrivial, compare=_chain_compare, wf_check=True)
 
@@ -139,6 +165,57 @@ PROPS = {
                    'implements it, run and static part); Coq, no axioms. Tied to /repo by the chain correspondence with failure masks over sessions.',
         level_note=CHAIN_NOTE, design_ref='DESIGN.md section 8 (C07)',
         assumptions=['plan_wf holds on the case (checked on every bound case of the run)'],
+    ),
+    'C03': dict(
+        monitor=True,
+        streams=[chain_stream(8000, 300000, _nt_c03)],
+        rule=CHAIN_RULE + 'C03 non-trivial: the chain binds and at least one supplied provider is excluded',
+        level_text='Theorems select_sound (whatever the elimination heuristics did, a chain that binds has, under the final marks, an included '
+                   'source for every input of every included provider and an included consumer for every must-consume flow; Required providers are '
+                   'included), validate_sound (worklist soundness from the dependency-closure invariant), provides_returns_closed, chain_refines (only '
+                   'included providers are compiled and run); Coq, no axioms. The clause "no other provider runs unless something it produced is actually '
+                   'received" is checked by an independent Coq monitor on the implementation\'s plan (nearest-producer / nearest-returner analysis) and is '
+                   'NOT a theorem: it is refuted by known finding D6 and claimed only where the faithful model\'s own plan is justified.',
+        level_note=CHAIN_NOTE + ' Known finding D6 (four listed inputs) is replayed on every run.', design_ref='DESIGN.md section 8 (C03)',
+        assumptions=['justification clause validated by monitor only; D6 region excluded'],
+    ),
+    'C14': dict(
+        monitor=True,
+        streams=[pair_stream('desired', 5000, 150000), chain_stream(3000, 100000, _nt_bound)],
+        rule=CHAIN_RULE + 'stream desired: a chain and a chosen Desired or auto-desired provider (outside clusters, not Shun\'d), paired with the same chain '
+             'with that provider Required; monitor: included iff the variant binds, and then identical order, results and call log; non-trivial: base binds',
+        level_text='Theorems desired_kept_in_trials (in every trial elimination a Desired/auto-desired provider is kept exactly like a Required one, so it can '
+                   'only be dropped when it cannot be included at all), validate_required, select_sound and C14_checks_ok_must_consume (an included MustConsume '
+                   'producer has an included consumer of that type); Coq, no axioms. The equivalence "included iff the Required variant binds, same behaviour" is '
+                   'validated by the differential stream (impl = model on both chains, and the relation checked on the implementation), not proved in full '
+                   '(lock-step simulation of two selection runs was not attempted).',
+        level_note=CHAIN_NOTE, design_ref='DESIGN.md section 8 (C14)',
+        assumptions=['Desired = Required-if-possible proved for the trial eliminations only; whole-run equivalence validated differentially'],
+    ),
+    'C15': dict(
+        monitor=True,
+        streams=[chain_stream(8000, 300000, _nt_c15)],
+        rule=CHAIN_RULE + 'C15 non-trivial: the chain binds and some provider receives a returned value; an independent Coq monitor checks on the implementation\'s plan '
+             'that every returned type has an included receiver above and that no wrapper shadows unannounced',
+        level_text='Theorems C15_returns_received (from select_sound: in a chain that binds every returned, non-ConsumptionOptional type of an included provider has an '
+                   'included receiver), C15_return_flow_is_must_consume, check_shadowing_sound (a passing shadowing check means no un-announced override of an '
+                   'un-received return from below); Coq, no axioms. Tied to /repo by the chain correspondence plus the plan-level monitor.',
+        level_note=CHAIN_NOTE + ' Defect D21 (ConsumptionOptional[T] made all returns optional) was repaired in /repo.', design_ref='DESIGN.md section 8 (C15)',
+        assumptions=[],
+    ),
+    'C16': dict(
+        monitor=True,
+        streams=[pair_stream('prune', 5000, 150000)],
+        rule='stream prune: chains without Reorder/Cluster/static-eligible annotations (otherwise as the chain stream), paired with the same chain with every '
+             'provider the real Bind excluded deleted; monitor: the pruned chain binds, includes the same providers and yields the same results and call log; '
+             'non-trivial: base binds; chains with a Shun\'d provider (or nject\'s own Shun\'d Unused providers) are the region of known finding D6 and are '
+             'compared with the model only',
+        level_text='Theorems chain_refines / compile_all_skips_excluded (run time: behaviour is the reference semantics of the plan, which mentions included '
+                   'providers only) and C16_included_self_sufficient_partial (the included set passes all checks using included providers only); Coq, no axioms. '
+                   'Idempotence of the selection heuristic under deletion is NOT proved: it is validated by the differential stream and refuted on chains with '
+                   'Shun (known finding D6).',
+        level_note=CHAIN_NOTE + ' Known finding D6e is replayed on every run.', design_ref='DESIGN.md section 8 (C16)',
+        assumptions=['bind-time inertness validated differentially, not proved'],
     ),
     'C18': dict(
         monitor=True,
